@@ -50,6 +50,8 @@ T9 = {
     "fileio/read_elf.cpp": ["read_elf"],
     "disasm/tms9900.cpp": ["list_output_tms9900", "disasm_range_tms9900"],
     "disasm/msp430.cpp": ["list_output_msp430_both", "disasm_range_msp430_both"],
+    "disasm/z80.cpp": ["list_output_z80", "disasm_range_z80"],
+    "disasm/z80.h": ["list_output_z80", "disasm_range_z80"],
     "disasm/6800.cpp": ["list_output_6800", "disasm_range_6800"],
     "disasm/6800.h": ["list_output_6800", "disasm_range_6800"],
     "disasm/6809.cpp": ["list_output_6809", "disasm_range_6809"],
@@ -199,6 +201,8 @@ EXTRACT = [
     ("disasm/riscv.cpp", r"^static int32_t permutate_branch\(", "riscv_dis_permutate_branch.inc"),
     ("disasm/riscv.cpp", r"^static int32_t permutate_jal\(", "riscv_dis_permutate_jal.inc"),
     ("disasm/msp430.cpp", r"^(?:extern \"C\" |static )?void disasm_range_msp430_both\(", "disasm_range_msp430_both.inc"),
+    ("disasm/z80.cpp", r"^(?:extern \"C\" )?void list_output_z80\(", "list_output_z80.inc"),
+    ("disasm/z80.cpp", r"^(?:extern \"C\" )?void disasm_range_z80\(", "disasm_range_z80.inc"),
     ("core/AsmContext.cpp", r"^int AsmContext::link\(\)", "AsmContext_link.inc"),
     ("core/Linker.cpp", r"^uint8_t \*Linker::get_code_from_symbol\(", "Linker_get_code_from_symbol.inc"),
     ("core/UtilContext.cpp", r"^void UtilContext::print8\(const char \*token\)", "UtilContext_print8.inc"),
